@@ -67,8 +67,26 @@ pub enum IceOpt {
     /// `enable_ice_lite` on endpoint A only ("ice-lite on one side"); with `offerer` this gives
     /// lite-on-offerer and lite-on-answerer.
     LiteA,
-    /// `ice_udp_mux = true` on both sides, each endpoint with its own `ice_udp_mux_port`
-    UdpMux,
+}
+
+/// Which endpoint(s) use the process-wide shared UDP socket (`ice_udp_mux = true` with its own, fresh
+/// `ice_udp_mux_port` per endpoint and point).
+#[derive(Clone, Copy, Debug, PartialEq, Eq, PartialOrd, Ord, Serialize, Deserialize, Default)]
+pub enum UMux {
+    #[default]
+    Off,
+    Offerer,
+    Answerer,
+    Both,
+}
+
+impl UMux {
+    fn on_offerer(self) -> bool {
+        matches!(self, UMux::Offerer | UMux::Both)
+    }
+    fn on_answerer(self) -> bool {
+        matches!(self, UMux::Answerer | UMux::Both)
+    }
 }
 
 /// Which ICE transports one endpoint gathers (per side: `tr_off` for the offerer, `tr_ans` for the answerer).
@@ -135,6 +153,8 @@ pub struct Point {
     pub tr_off: Tr,
     #[serde(default)]
     pub tr_ans: Tr,
+    #[serde(default)]
+    pub umux: UMux,
     pub latch: Latch,
     pub compat: Compat,
     pub offerer: Side,
@@ -144,7 +164,8 @@ const MODES: [Mode; 3] = [Mode::WebRtc, Mode::Srtp, Mode::Rtp];
 const MEDIAS: [Media; 5] = [Media::Audio, Media::AudioVideo, Media::Dc, Media::DcAudio, Media::DcAudioVideo];
 const BUNDLES: [Bundle; 2] = [Bundle::NotOffered, Bundle::Offered];
 const MUXES: [Mux; 2] = [Mux::Require, Mux::Negotiate];
-const ICES: [IceOpt; 3] = [IceOpt::Plain, IceOpt::LiteA, IceOpt::UdpMux];
+const ICES: [IceOpt; 2] = [IceOpt::Plain, IceOpt::LiteA];
+const UMUXES: [UMux; 4] = [UMux::Off, UMux::Offerer, UMux::Answerer, UMux::Both];
 const TRS: [Tr; 4] = [Tr::Udp, Tr::UdpTcp, Tr::TcpPassive, Tr::TcpActive];
 const LATCHES: [Latch; 3] = [Latch::Off, Latch::On0, Latch::On3];
 const COMPATS: [Compat; 2] = [Compat::Standard, Compat::LegacySip];
@@ -174,6 +195,7 @@ impl Point {
         ice: IceOpt::Plain,
         tr_off: Tr::Udp,
         tr_ans: Tr::Udp,
+        umux: UMux::Off,
         latch: Latch::Off,
         compat: Compat::Standard,
         offerer: Side::A,
@@ -202,15 +224,12 @@ impl Point {
         //                                  connectivity checks against us."
         //   ICE-TCP needs candidate gathering and connectivity checks:
         //   src/config.rs:65,542          "Controls ICE TCP candidate support (RFC 6544)." / "only UDP candidates are gathered and used"
-        //   UDP mux needs STUN binding requests to route:
-        //   src/config.rs:549-551         "Incoming UDP packets are demultiplexed by the server ufrag embedded in the first STUN
-        //                                  Binding Request's `USERNAME` attribute"
+        //   The shared UDP mux socket is NOT restricted to ICE: packets are also routed by the destinations a session sent to
+        //   (src/transports/ice/shared_udp.rs:10-14 "Outbound sends through a [`SharedUdpHandle`] also record their destination"),
+        //   and resolve_socket() hands the mux handle to the direct (Srtp) path as well, so it is a coordinate in every mode.
         match (self.mode, self.ice) {
             (_, IceOpt::Plain) | (Mode::WebRtc, _) | (Mode::Rtp, IceOpt::LiteA) => {}
             (Mode::Srtp, _) => return Some("ICE options only where ICE runs (Srtp mode does NOT run ICE)"),
-            (Mode::Rtp, _) => {
-                return Some("ICE options only where ICE runs (Rtp mode: no gathering, no STUN; only ICE-lite is supported there)");
-            }
         }
         if let Some(c) = self.tr_constraint() {
             return Some(c);
@@ -255,11 +274,12 @@ impl Point {
         if self.tr_ans == Tr::TcpActive {
             return Some("active-only TCP candidates are for the controlling (offering) side; answerers configure a listen range");
         }
-        // (2d) The shared mux socket is a UDP host candidate: it is only gathered where UDP hosts are gathered.
+        // (2d) The shared mux socket is a UDP host candidate: where ICE gathers (WebRtc) it only exists on a side that gathers
+        //      UDP hosts.
         //   src/transports/ice/mod.rs:3669 `if self.config.ice_gather_udp_hosts { ... self.gather_host_candidates() ...`
         //   src/transports/ice/mod.rs:3839 (inside gather_host_candidates) `if self.config.ice_udp_mux && let Err(e) =
         //                                   self.gather_shared_udp_host_candidate().await`
-        if self.ice == IceOpt::UdpMux && !(self.tr_off.has_udp() && self.tr_ans.has_udp()) {
+        if (self.umux.on_offerer() && !self.tr_off.has_udp()) || (self.umux.on_answerer() && !self.tr_ans.has_udp()) {
             return Some("udp-mux is a UDP host candidate: needs UDP host gathering on that side");
         }
         None
@@ -277,7 +297,7 @@ impl Point {
         self.violated_constraint().is_none()
     }
 
-    fn coords(&self) -> [usize; 10] {
+    fn coords(&self) -> [usize; 11] {
         [
             self.mode as usize,
             self.media as usize,
@@ -286,6 +306,7 @@ impl Point {
             self.ice as usize,
             self.tr_off as usize,
             self.tr_ans as usize,
+            self.umux as usize,
             self.latch as usize,
             self.compat as usize,
             self.offerer as usize,
@@ -299,8 +320,8 @@ impl Point {
 
     fn tag(&self) -> String {
         format!(
-            "mode={:?},media={:?},bundle={:?},mux={:?},ice={:?},tr={:?}/{:?},latch={:?},compat={:?},offerer={:?}",
-            self.mode, self.media, self.bundle, self.mux, self.ice, self.tr_off, self.tr_ans, self.latch, self.compat, self.offerer
+            "mode={:?},media={:?},bundle={:?},mux={:?},ice={:?},tr={:?}/{:?},umux={:?},latch={:?},compat={:?},offerer={:?}",
+            self.mode, self.media, self.bundle, self.mux, self.ice, self.tr_off, self.tr_ans, self.umux, self.latch, self.compat, self.offerer
         )
     }
 }
@@ -315,12 +336,14 @@ pub fn all_points() -> Vec<Point> {
                     for ice in ICES {
                         for tr_off in TRS {
                             for tr_ans in TRS {
-                                for latch in LATCHES {
-                                    for compat in COMPATS {
-                                        for offerer in SIDES {
-                                            let p = Point { mode, media, bundle, mux, ice, tr_off, tr_ans, latch, compat, offerer };
-                                            if p.valid() {
-                                                v.push(p);
+                                for umux in UMUXES {
+                                    for latch in LATCHES {
+                                        for compat in COMPATS {
+                                            for offerer in SIDES {
+                                                let p = Point { mode, media, bundle, mux, ice, tr_off, tr_ans, umux, latch, compat, offerer };
+                                                if p.valid() {
+                                                    v.push(p);
+                                                }
                                             }
                                         }
                                     }
@@ -343,7 +366,7 @@ pub fn pairwise(all: &[Point], keys: &[u32]) -> Vec<Point> {
         // the per-side transports enter as one compound coordinate, so that every (tr_off, tr_ans) combination is
         // crossed with every value of every other coordinate
         let c0 = p.coords();
-        let c = [c0[0], c0[1], c0[2], c0[3], c0[4], c0[5] * 4 + c0[6], c0[7], c0[8], c0[9]];
+        let c = [c0[0], c0[1], c0[2], c0[3], c0[4], c0[5] * 4 + c0[6], c0[7], c0[8], c0[9], c0[10]];
         let mut out = Vec::with_capacity(28);
         for i in 0..c.len() {
             for j in (i + 1)..c.len() {
@@ -395,10 +418,10 @@ fn tr_pairs(mode: Mode, ice: IceOpt) -> Vec<(Tr, Tr)> {
 
 /// Random valid point, built by construction: mode first, then only the values the mode allows.
 fn random_point() -> impl Strategy<Value = Point> {
-    (any::<[u16; 8]>()).prop_map(|r| {
+    (any::<[u16; 9]>()).prop_map(|r| {
         let pick = |x: u16, n: usize| crate::engine::pick(x, n);
-        // WebRtc carries 880 of the 992 points (and all transport combinations): weight it accordingly
-        const MODE_W: [Mode; 10] = [Mode::WebRtc, Mode::WebRtc, Mode::WebRtc, Mode::WebRtc, Mode::WebRtc, Mode::WebRtc, Mode::WebRtc, Mode::Srtp, Mode::Rtp, Mode::Rtp];
+        // WebRtc carries most of the lattice (all transport combinations): weight it accordingly
+        const MODE_W: [Mode; 10] = [Mode::WebRtc, Mode::WebRtc, Mode::WebRtc, Mode::WebRtc, Mode::WebRtc, Mode::WebRtc, Mode::Srtp, Mode::Srtp, Mode::Rtp, Mode::Rtp];
         let mode = MODE_W[pick(r[0], 10)];
         let medias: &[Media] = if mode == Mode::WebRtc { &MEDIAS } else { &[Media::Audio, Media::AudioVideo] };
         let media = medias[pick(r[1], medias.len())];
@@ -412,6 +435,13 @@ fn random_point() -> impl Strategy<Value = Point> {
         let compat = COMPATS[pick(r[4], 2)];
         let trs = tr_pairs(mode, ice);
         let (tr_off, tr_ans) = trs[pick(r[7], trs.len())];
+        // the mux only on sides that gather UDP hosts (by construction)
+        let umuxes: Vec<UMux> = UMUXES
+            .iter()
+            .copied()
+            .filter(|u| (!u.on_offerer() || tr_off.has_udp()) && (!u.on_answerer() || tr_ans.has_udp()))
+            .collect();
+        let umux = umuxes[pick(r[8], umuxes.len())];
         let p = Point {
             mode,
             media,
@@ -420,6 +450,7 @@ fn random_point() -> impl Strategy<Value = Point> {
             ice,
             tr_off,
             tr_ans,
+            umux,
             latch,
             compat,
             offerer: SIDES[pick(r[6], 2)],
@@ -474,6 +505,9 @@ pub struct PointTree {
 impl PointTree {
     /// candidate with coordinate `c` reset to its default (bundle is re-derived); None if unchanged or invalid
     fn reset(p: &Point, c: usize) -> Option<Point> {
+        // order of attempts: latch, ice, udp-mux (off, one side), then the rest
+        const ORDER: [usize; 16] = [0, 1, 13, 14, 15, 2, 3, 4, 5, 6, 7, 8, 9, 10, 11, 12];
+        let c = ORDER[c];
         let mut q = *p;
         match c {
             0 => q.latch = Point::DEFAULT.latch,
@@ -492,13 +526,16 @@ impl PointTree {
             10 => q.tr_ans = if p.tr_ans.has_udp() { p.tr_ans } else { Tr::UdpTcp },
             11 => q.tr_off = if p.tr_off.has_udp() { p.tr_off } else { Tr::UdpTcp },
             12 => q.mode = Point::DEFAULT.mode,
+            13 => q.umux = UMux::Off,
+            14 => q.umux = if p.umux == UMux::Both { UMux::Offerer } else { p.umux },
+            15 => q.umux = if p.umux == UMux::Both { UMux::Answerer } else { p.umux },
             _ => return None,
         }
         q.bundle = Point::derived_bundle(q.media, q.compat);
         (q != *p && q.valid()).then_some(q)
     }
     fn advance(&mut self) -> bool {
-        while self.next_coord < 13 {
+        while self.next_coord < 16 {
             let c = self.next_coord;
             self.next_coord += 1;
             if let Some(q) = Self::reset(&self.cur, c) {
@@ -576,7 +613,9 @@ struct Ports {
 fn ports_for(p: &Point, side: Side) -> Ports {
     let tr = if side == p.offerer { p.tr_off } else { p.tr_ans };
     Ports {
-        mux: (p.ice == IceOpt::UdpMux).then(|| alloc_ports(1)),
+        // a fresh port per endpoint and point: re-binding a mux port right after its last session closed fails for up to
+        // 250 ms on the unchanged tree (the old demux task still holds the socket)
+        mux: (if side == p.offerer { p.umux.on_offerer() } else { p.umux.on_answerer() }).then(|| alloc_ports(1)),
         tcp_range: (tr == Tr::TcpPassive).then(|| {
             let base = alloc_ports(3);
             (base, base + 2)
@@ -603,10 +642,10 @@ fn config_for(p: &Point, side: Side, ports: Ports) -> RtcConfiguration {
     match p.ice {
         IceOpt::Plain => {}
         IceOpt::LiteA => c.enable_ice_lite = side == Side::A,
-        IceOpt::UdpMux => {
-            c.ice_udp_mux = true;
-            c.ice_udp_mux_port = ports.mux;
-        }
+    }
+    if let Some(port) = ports.mux {
+        c.ice_udp_mux = true;
+        c.ice_udp_mux_port = Some(port);
     }
     let tr = if side == p.offerer { p.tr_off } else { p.tr_ans };
     match tr {
@@ -655,6 +694,7 @@ struct End {
     pc: PeerConnection,
     audio: Option<(Arc<SampleStreamSource>, Arc<SampleStreamTrack>)>,
     video: Option<(Arc<SampleStreamSource>, Arc<SampleStreamTrack>)>,
+    mux_port: Option<u16>,
 }
 
 fn audio_params() -> RtpCodecParameters {
@@ -665,8 +705,9 @@ fn video_params() -> RtpCodecParameters {
 }
 
 fn build_end(p: &Point, side: Side) -> Result<End, Fail> {
-    let pc = PeerConnection::new(config_for(p, side, ports_for(p, side)));
-    let mut end = End { pc, audio: None, video: None };
+    let ports = ports_for(p, side);
+    let pc = PeerConnection::new(config_for(p, side, ports));
+    let mut end = End { pc, audio: None, video: None, mux_port: ports.mux };
     if p.media.has_audio() {
         let (src, track, _fb) = sample_track(FrameKind::Audio, (RTP_TOTAL + 32) as usize);
         end.pc
@@ -1048,6 +1089,14 @@ async fn run_point_inner(p: Point, rec: &CaseRec) -> Check {
         f.msg.push_str(&format!("\noffer:\n{offer_text}\nanswer:\n{answer_text}"));
         f
     })?;
+    // is the shared mux socket really what the endpoint advertises? (Rtp mode binds its own socket and never gathers, so
+    // the option has no effect there; measured, not demanded)
+    for (end, sdp) in [(off, &offer_text), (ans, &answer_text)] {
+        if let Some(port) = end.mux_port {
+            let advertised = sdp.contains(&format!(" {port} typ host")) || sdp.lines().any(|l| l.starts_with("m=") && l.split_whitespace().nth(1) == Some(&port.to_string()));
+            rec.label(if advertised { "udp-mux-port-advertised" } else { "udp-mux-configured-but-not-used" });
+        }
+    }
     if offer.media_sections.len() != p.media.sections() || answer_sections(&answer_text) != p.media.sections() {
         return Err(Fail::new(
             "sdp:section-count",
@@ -1348,6 +1397,7 @@ fn label_point(p: &Point, rec: &CaseRec) {
     rec.label(format!("mux={:?}", p.mux));
     rec.label(format!("ice={:?}", p.ice));
     rec.label(format!("tr={:?}/{:?}", p.tr_off, p.tr_ans));
+    rec.label(format!("mode={:?}/umux={:?}", p.mode, p.umux));
     rec.label(format!("latch={:?}", p.latch));
     rec.label(format!("compat={:?}", p.compat));
     rec.label(format!("offerer={:?}", p.offerer));
@@ -1464,7 +1514,7 @@ pub fn run(ctx: &mut Ctx) {
     ctx.level = "exploration";
     let all = all_points();
     ctx.rule = format!(
-        "lattice mode{{WebRtc,Srtp,Rtp}} x media{{audio,audio+video,dc,dc+audio,dc+audio+video}} x bundle{{offered,not}} x rtcp-mux{{Require,Negotiate}} x ice option{{plain,ice-lite on A,udp-mux}} x offerer transports x answerer transports (each of {{UDP, UDP+TCP, TCP passive listener only, TCP active only}}) x latching{{off,on/probation 0,on/probation 3}} x compat{{Standard,LegacySip}} x offerer{{A,B}}, pruned by the constraints rustrtc states itself (data channels only in WebRtc mode; ICE options and ICE-TCP only where ICE runs; the two ends share a transport protocol; active-only TCP is for the offering side; udp-mux needs UDP host gathering and a port; latching only in Rtp mode; BUNDLE offered iff Standard and >1 section) to {} points. Quick: a covering array in which the (offerer transports, answerer transports) combination is one compound coordinate, so every transport combination meets every value of every other coordinate and all other value pairs meet too (seeded tie-breaks), plus 700 seeded random valid points (mode weighted 7:1:2 like the lattice); thorough: every point of the pruned product, 5 more passes and 1500 seeded random valid points. Each point: two PeerConnections on 127.0.0.1 with the same settings except role and per-side transports, documented non-trickle offer/answer, both Connected, then a concurrent exchange on a multi-thread runtime: per direction and media section an unpaced burst of {} RTP packets plus {} paced ones from its own task, and (if dc) 16 data-channel messages of 1..16000 bytes from a third task, both directions at once. Non-trivial = the point differs from the default configuration in >= 1 coordinate; distinct by point.",
+        "lattice mode{{WebRtc,Srtp,Rtp}} x media{{audio,audio+video,dc,dc+audio,dc+audio+video}} x bundle{{offered,not}} x rtcp-mux{{Require,Negotiate}} x ice option{{plain,ice-lite on A}} x udp-mux side{{off,offerer,answerer,both}} x offerer transports x answerer transports (each of {{UDP, UDP+TCP, TCP passive listener only, TCP active only}}) x latching{{off,on/probation 0,on/probation 3}} x compat{{Standard,LegacySip}} x offerer{{A,B}}, pruned by the constraints rustrtc states itself (data channels only in WebRtc mode; ICE options and ICE-TCP only where ICE runs; the two ends share a transport protocol; active-only TCP is for the offering side; udp-mux (a fresh port per endpoint and point) only on a side that gathers UDP hosts, in every mode; latching only in Rtp mode; BUNDLE offered iff Standard and >1 section) to {} points. Quick: a covering array in which the (offerer transports, answerer transports) combination is one compound coordinate, so every transport combination meets every value of every other coordinate and all other value pairs meet too (seeded tie-breaks), plus 700 seeded random valid points (mode weighted 6:2:2); thorough: every point of the pruned product, 2 more passes and 1500 seeded random valid points. Each point: two PeerConnections on 127.0.0.1 with the same settings except role and per-side transports, documented non-trickle offer/answer, both Connected, then a concurrent exchange on a multi-thread runtime: per direction and media section an unpaced burst of {} RTP packets plus {} paced ones from its own task, and (if dc) 16 data-channel messages of 1..16000 bytes from a third task, both directions at once. Non-trivial = the point differs from the default configuration in >= 1 coordinate; distinct by point.",
         all.len(), BURST, TAIL
     );
     ctx.assumptions = vec![
@@ -1515,7 +1565,7 @@ pub fn run(ctx: &mut Ctx) {
     let mut list: Vec<Point> = Vec::new();
     if ctx.thorough() {
         list.extend(all.iter().copied());
-        let passes = 5;
+        let passes = 2;
         for _ in 0..passes {
             list.extend(steer(all.clone(), &mut skipped));
         }
@@ -1554,7 +1604,7 @@ mod tests {
     #[test]
     fn lattice_size_and_pairwise_cover() {
         let all = all_points();
-        assert_eq!(all.len(), 992);
+        assert_eq!(all.len(), 2368);
         let arr = pairwise(&all, &[]);
         assert!(arr.len() < 80, "{}", arr.len());
     }
